@@ -37,6 +37,8 @@ pub struct Frags<'a> {
     /// keep writing the remaining fragments after one failed and report the failure at the end
     /// (the "always emit the reset, then return the body's result" idiom of styled Display impls)
     pub keep_going: bool,
+    /// emit every fragment through `write_char`, one character at a time
+    pub per_char: bool,
 }
 
 impl std::fmt::Display for Frags<'_> {
@@ -46,7 +48,16 @@ impl std::fmt::Display for Frags<'_> {
             if self.fail_after == Some(i) {
                 return Err(std::fmt::Error);
             }
-            if self.keep_going {
+            if self.per_char {
+                // character by character, the way `{}` of a char or a hand-written Display does
+                for c in p.chars() {
+                    if self.keep_going {
+                        failed |= std::fmt::Write::write_char(f, c).is_err();
+                    } else {
+                        std::fmt::Write::write_char(f, c)?;
+                    }
+                }
+            } else if self.keep_going {
                 failed |= f.write_str(p).is_err();
             } else {
                 f.write_str(p)?;
@@ -194,13 +205,13 @@ pub fn apply(sut: &mut dyn Write, op: &Op, buf: &[u8]) -> OpResult {
                 // histories with an even number of fragments use a Display impl that keeps going
                 // after a failed piece
                 let keep_going = fmt_keeps_going(op);
-                write!(sut, "{}", Frags { parts, fail_after: None, keep_going }).map(|_| None)
+                write!(sut, "{}", Frags { parts, fail_after: None, keep_going, per_char: lens.len() % 3 == 0 }).map(|_| None)
             }
             Applied::FmtFail => {
                 let Op::FmtFail(lens, k) = op else { unreachable!() };
                 let parts = str_frags(buf, lens).unwrap();
                 let k = (*k).min(parts.len());
-                write!(sut, "{}", Frags { parts, fail_after: Some(k), keep_going: false }).map(|_| None)
+                write!(sut, "{}", Frags { parts, fail_after: Some(k), keep_going: false, per_char: false }).map(|_| None)
             }
             Applied::FmtLit => {
                 let Op::FmtLit(k) = op else { unreachable!() };
@@ -238,6 +249,16 @@ pub fn gen_ops(rng: &mut Rng, wl: &Workload, allow_fmt_fail: bool) -> Vec<Op> {
     let mut ops = Vec::new();
     let mut covered = 0usize;
     let mut fail_used = !allow_fmt_fail || !rng.chance(1, 40);
+    if n > 4096 && rng.chance(1, 2) {
+        // the whole (large) input in a single call
+        ops.push(match rng.below(4) {
+            0 => Op::Write(n),
+            1 => Op::WriteAll(n),
+            2 => Op::Fmt(vec![n]),
+            _ => Op::Vectored(vec![n / 3, 0, n - n / 3]),
+        });
+        covered = n;
+    }
     while covered < n + 2 && ops.len() < 200 {
         let len = match size_mode {
             0 => rng.range(1, 4),
